@@ -106,7 +106,15 @@ class Mode:
         ns["initialize"] = initialize
         root = StatefulAutonomous
         if base_ns:
+            # the base class is a mode in its own right (the selector would construct it too): half of the time it has
+            # been instantiated before the mode under observation is
+            base_ns["MODE_NAME"] = self.name + "_base"
             root = type("GenBase" + self.name, (StatefulAutonomous,), base_ns)
+            if uid % 2 == 0:
+                try:
+                    self.base_obj = root()
+                except Exception:  # noqa  (a base class without a first state cannot be built: fine)
+                    self.base_obj = None
         cls = type("Gen" + self.name, (root,), ns)
         self.obj = cls()
         if base_ns:
@@ -134,6 +142,10 @@ class Mode:
                         if "initial_call" in kw else -1,
                         "v": qv(getattr(obj, "v", -1))})
         a = self.action
+        if a and a.get("av", -1) != -1:
+            obj.v = a["av"] / 4.0                  # the state function counts the registered variable down, ...
+        if a and a.get("ad", -1) != -1 and self.shape["durOf"].get(name.split("@")[0], -1) != -1:
+            setattr(obj, self.fprefix + name + "_duration", a["ad"] / 64.0)      # ... or hurries itself up
         if a and a["act"] == "ns":
             obj.next_state(a["s"])
         elif a and a["act"] == "done":
@@ -149,6 +161,19 @@ class Mode:
             return {"cb": [], "dur": durs, "v": qv(o.v)}
         if k == "disable":
             o.on_disable()
+            return {"cb": []}
+        if k == "sibling":
+            # a whole autonomous period of the sibling mode (same base class), ended in the middle of a state
+            sib = getattr(self, "sibling", None)
+            if sib is not None:
+                saved, self.cb = self.cb, []
+                try:
+                    sib.on_enable()
+                    for j in range(1, 4):
+                        sib.on_iteration(j * 0.125)
+                    sib.on_disable()
+                finally:
+                    self.cb = saved
             return {"cb": []}
         if k == "sdw":
             self.table.putNumber("%s\\%s_duration" % (self.name, self.fprefix + ev["s"]), ev["d"] / 64.0)
@@ -174,6 +199,8 @@ def random_events(rng, shape, n):
     for _ in range(n):
         r = rng.random()
         if not enabled or r < 0.04:
+            if rng.random() < 0.3:
+                evs.append({"e": "sibling"})
             evs.append({"e": "enable"})
             enabled = True
             clk = 0
@@ -195,7 +222,9 @@ def random_events(rng, shape, n):
             act, s = "done", "none"
         else:
             act, s = "none", "none"
-        evs.append({"e": "iter", "tm": clk, "act": act, "s": s})
+        w = rng.random()
+        evs.append({"e": "iter", "tm": clk, "act": act, "s": s,
+                    "av": rng.choice([1, 2, 5, 9]) if w < 0.06 else -1, "ad": rng.choice([0, 1, 3, 70]) if 0.06 <= w < 0.12 else -1})
     return evs
 
 
